@@ -424,6 +424,8 @@ def plan(tier, seed):
                       'noise_def': ndn, 'decoder': dname, 'rate': rate,
                       'N': 2 * N if tier == 'quick' else N, 'seed': seed,
                       'cost': N * 3 * len(sizes) + 2000})
+    if tier == 'thorough':
+        tasks.append({'kind': 'contracts', 'cost': 60000})
     # larger codes: self-consistency + reproducibility only
     big = [('MatchingDecoder', 'Toric2DCode', (4, 5)),
            ('MatchingDecoder', 'Planar2DCode', (5, 5)),
@@ -544,6 +546,10 @@ def run_batch(task, out):
 
 
 def run_task(task, out):
+    if task.get('kind') == 'contracts':
+        from pv.pytest_contracts import run_contract_suite
+        run_contract_suite(out, 'run_once', 'run_once')
+        return
     if task.get('kind') == 'batch':
         run_batch(task, out)
     else:
